@@ -42,12 +42,14 @@ import (
 	"errors"
 	"fmt"
 	"io"
+	"net"
 	"os"
 	"path/filepath"
 	"sort"
 	"strconv"
 	"strings"
 	"sync"
+	"syscall"
 	"testing"
 	"time"
 
@@ -147,22 +149,24 @@ var c08kindsQ = []string{"ok", "connect", "connect-down", "write0", "write", "wr
 var c08kindsT = []string{"ok", "ok500", "connect", "connect-down", "fcgi-connect", "write0", "write", "writepart", "readhdr", "hdrtimeout", "broken", "other", "fcgi-readhdr", "fcgi-write"}
 
 func c08isConnect(kind string) bool {
-	return kind == "connect" || kind == "connect-down" || kind == "fcgi-connect"
+	return kind == "connect" || kind == "connect-down" || kind == "fcgi-connect" || kind == "dial-refused"
 }
-func c08isResponse(kind string) bool { return kind == "ok" || kind == "ok500" }
+func c08isResponse(kind string) bool {
+	return kind == "ok" || kind == "ok500" || kind == "answer" || kind == "answer-close"
+}
 
 // class of the answer for signatures / counters
 func c08kindClass(kind string) string {
 	switch kind {
-	case "ok", "ok500":
+	case "ok", "ok500", "answer", "answer-close":
 		return "response"
-	case "connect", "connect-down", "fcgi-connect":
+	case "connect", "connect-down", "fcgi-connect", "dial-refused":
 		return "connect-error"
-	case "write0", "write", "writepart":
+	case "write0", "write", "writepart", "write-fails-at-once", "write-fails-in-body":
 		return "write-error"
-	case "readhdr", "fcgi-readhdr":
+	case "readhdr", "fcgi-readhdr", "eof-after-request", "reset-after-request", "partial-header-eof":
 		return "read-header-error"
-	case "hdrtimeout":
+	case "hdrtimeout", "silent":
 		return "header-timeout"
 	case "broken":
 		return "transport-broken"
@@ -203,6 +207,7 @@ type c08family struct {
 	alphabet []string
 	est      int64
 	hist     *c08hist // nil: cluster present since start-up of the shared server; else see c08hist
+	real     *c08real // non-nil: the real bfe_http.Transport against a scripted in-memory backend
 }
 
 func (f *c08family) cluster() string {
@@ -213,6 +218,9 @@ func (f *c08family) cluster() string {
 }
 func (f *c08family) cap() int { return 1 + f.m + f.c }
 func (f *c08family) name() string {
+	if f.real != nil {
+		return fmt.Sprintf("T[%s]/%s/%s-%s/A%d", f.real.name(), c08clusterName(f.lay.name, f.m, f.c, f.rl), f.method, f.body, len(f.alphabet))
+	}
 	if f.hist != nil {
 		return fmt.Sprintf("H[%s]/%sm%dc%dr%d/%s-%s/A%d", f.hist.name(), f.lay.name, f.m, f.c, f.rl, f.method, f.body, len(f.alphabet))
 	}
@@ -330,6 +338,7 @@ type c08att struct {
 	raw       []byte
 	bodyBytes int // payload bytes of the request body this attempt took
 	werr      string
+	reused    bool // real transport: the request travelled on a connection taken from the idle pool
 }
 
 type c08world struct {
@@ -561,6 +570,9 @@ func c08history(f *c08family, atts []c08att) string {
 		if a.werr != "" {
 			x += " [Request.Write: " + a.werr + "]"
 		}
+		if a.reused {
+			x += " [on a reused keep-alive connection]"
+		}
 		s = append(s, x)
 	}
 	return strings.Join(s, "; ")
@@ -577,8 +589,12 @@ func c08judge(f *c08family, atts []c08att) []c08viol {
 	// R1
 	for k := 0; k+1 < n; k++ {
 		if !f.mayResendAfter(atts[k].kind) {
+			sfx := ""
+			if atts[k].reused {
+				sfx = ":reused-conn"
+			}
 			vs = append(vs, c08viol{
-				sig:    fmt.Sprintf("resend:%s:%s:L%d:after-%s", f.method, c08bodyClass(f.body), f.rl, c08kindClass(atts[k].kind)),
+				sig:    fmt.Sprintf("resend:%s:%s:L%d:after-%s", f.method, c08bodyClass(f.body), f.rl, c08kindClass(atts[k].kind)) + sfx,
 				detail: fmt.Sprintf("attempt %d follows attempt %d which ended with %s; %s", k+2, k+1, atts[k].kind, ctx)})
 			break
 		}
@@ -816,6 +832,377 @@ type c08unit struct {
 	hist *c08hist
 }
 
+// ---- real transport --------------------------------------------------------------------------
+//
+// In the families above the RoundTripper is scripted, so the classification of real transport
+// failures into bfe's error types (which is what clusterInvoke's retry decision hangs on) is
+// outside the loop. Here the cluster keeps the REAL bfe_http.Transport built by the real
+// createTransport (only its Dial is replaced by an in-memory seam; keep-alive to the backend on
+// or off), and the backend is a scripted peer on the other end of every connection:
+//   per dial      : refused | accepted
+//   per request on a connection (fresh or taken from the idle pool): answer 200 keep-alive |
+//                   answer 200 Connection: close | the first write fails | the write fails after
+//                   2 body bytes | read the whole request then FIN | ... then RST | ... then half
+//                   a status line and FIN | ... then silence (response header timeout)
+//   connection history: fresh | a previous request of the same client was answered and left its
+//                   connection in the idle pool | ... and the backend closed that idle connection
+// Attempts are what the backend side sees (a refused dial, or a request started on a connection);
+// "failed while connecting" = the dial was refused. R1..R4 are evaluated on these attempts with
+// the body bytes the backend really received.
+
+type c08real struct {
+	keepalive bool
+	history   string // fresh | warm | warm-idleclosed
+}
+
+func (x *c08real) name() string {
+	ka := "ka0"
+	if x.keepalive {
+		ka = "ka1"
+	}
+	return ka + "," + x.history
+}
+
+var c08realKinds = []string{"answer", "dial-refused", "write-fails-at-once", "write-fails-in-body", "eof-after-request", "reset-after-request", "partial-header-eof", "silent", "answer-close"}
+
+type c08tworld struct {
+	mu      sync.Mutex
+	fam     *c08family
+	ch      *vk.Chooser
+	phase   string // warm | judged
+	atts    []c08att
+	conns   []*c08bconn
+	forced  int
+	err     string
+	backs   map[string]*backend.BfeBackend
+	warmReq int
+}
+
+// choose the fate of the next attempt; caller holds w.mu
+func (w *c08tworld) choose(reuse bool) string {
+	f := w.fam
+	if len(w.atts) >= f.cap()+2 || w.ch.Skipped {
+		w.forced++
+		return "answer"
+	}
+	var alpha []string
+	for _, k := range f.alphabet {
+		if reuse && k == "dial-refused" {
+			continue
+		}
+		alpha = append(alpha, k)
+	}
+	return alpha[w.ch.Choose(len(alpha))]
+}
+
+// c08bconn is the transport's end of one backend connection; the scripted peer lives in its
+// Write method (it reacts when request bytes arrive), so no extra goroutine is involved.
+type c08bconn struct {
+	w      *c08tworld
+	addr   string
+	cond   *sync.Cond // on w.mu
+	in     []byte     // bytes the peer has sent
+	inErr  error      // delivered after `in` is drained (io.EOF = FIN)
+	closed bool       // closed by the transport
+	recv   []byte     // bytes of the current request the peer has received
+	mode   string     // fate of the current request; "" = idle, waiting for the next request
+	att    int        // index of the current request in w.atts (-1: warm-up request)
+	reqs   int
+}
+
+var c08errPipe = &net.OpError{Op: "write", Net: "tcp", Err: syscall.EPIPE}
+var c08errReset = &net.OpError{Op: "read", Net: "tcp", Err: syscall.ECONNRESET}
+
+// c08reqSplit: header length (incl. blank line), and whether the request in b is complete
+func c08reqSplit(b []byte) (hdr int, complete bool) {
+	i := bytes.Index(b, []byte("\r\n\r\n"))
+	if i < 0 {
+		return -1, false
+	}
+	hdr = i + 4
+	head := bytes.ToLower(b[:hdr])
+	body := b[hdr:]
+	if bytes.Contains(head, []byte("transfer-encoding: chunked")) {
+		return hdr, bytes.HasSuffix(body, []byte("0\r\n\r\n"))
+	}
+	if j := bytes.Index(head, []byte("content-length: ")); j >= 0 {
+		var n int
+		fmt.Sscanf(string(head[j+len("content-length: "):]), "%d", &n)
+		return hdr, len(body) >= n
+	}
+	return hdr, true
+}
+
+func (c *c08bconn) Write(p []byte) (int, error) {
+	w := c.w
+	w.mu.Lock()
+	defer w.mu.Unlock()
+	defer c.cond.Broadcast()
+	if c.closed {
+		return 0, errors.New("use of closed network connection")
+	}
+	if c.mode == "" { // a new request starts on an idle (reused) connection
+		c.recv = nil
+		if w.phase == "warm" {
+			c.mode, c.att = "answer", -1
+		} else {
+			c.mode = w.choose(true)
+			w.atts = append(w.atts, c08att{kind: c.mode, backend: c.addr, sub: w.fam.lay.byAddr[c.addr].sub, reused: c.reqs > 0})
+			c.att = len(w.atts) - 1
+		}
+		c.reqs++
+	}
+	switch c.mode {
+	case "write-fails-at-once", "dead":
+		return 0, c08errPipe
+	}
+	n := len(p)
+	var werr error
+	c.recv = append(c.recv, p...)
+	hdr, complete := c08reqSplit(c.recv)
+	if c.mode == "write-fails-in-body" && hdr >= 0 && len(c.recv) > hdr+2 {
+		// the peer takes the header and 2 body bytes, then the connection breaks
+		n -= len(c.recv) - (hdr + 2)
+		c.recv = c.recv[:hdr+2]
+		werr, complete = c08errPipe, false
+		c.mode = "dead"
+	}
+	if c.att >= 0 {
+		w.atts[c.att].raw = append([]byte(nil), c.recv...)
+		w.atts[c.att].bodyBytes = c08bodyData(c.recv)
+	}
+	if complete {
+		head := "HTTP/1.1 200 OK\r\nContent-Length: 2\r\n"
+		body := "ok"
+		if bytes.HasPrefix(c.recv, []byte("HEAD ")) {
+			body = ""
+		}
+		switch c.mode {
+		case "answer":
+			c.in = append(c.in, head+"\r\n"+body...)
+			c.mode = ""
+		case "answer-close":
+			c.in = append(c.in, head+"Connection: close\r\n\r\n"+body...)
+			c.inErr = io.EOF
+			c.mode = "dead"
+		case "eof-after-request":
+			c.inErr = io.EOF
+			c.mode = "dead"
+		case "reset-after-request":
+			c.inErr = c08errReset
+			c.mode = "dead"
+		case "partial-header-eof":
+			c.in = append(c.in, "HTTP/1.1 200 OK\r\nContent-Le"...)
+			c.inErr = io.EOF
+			c.mode = "dead"
+		case "silent", "write-fails-in-body":
+			c.mode = "dead" // says nothing more
+		}
+		if c.att < 0 {
+			w.warmReq++
+		}
+	}
+	return n, werr
+}
+
+func (c *c08bconn) Read(p []byte) (int, error) {
+	c.w.mu.Lock()
+	defer c.w.mu.Unlock()
+	for len(c.in) == 0 && c.inErr == nil && !c.closed {
+		c.cond.Wait()
+	}
+	if c.closed {
+		return 0, errors.New("use of closed network connection")
+	}
+	if len(c.in) > 0 {
+		n := copy(p, c.in)
+		c.in = c.in[n:]
+		return n, nil
+	}
+	return 0, c.inErr
+}
+
+func (c *c08bconn) Close() error {
+	c.w.mu.Lock()
+	c.closed = true
+	c.cond.Broadcast()
+	c.w.mu.Unlock()
+	return nil
+}
+
+// peerClose: the backend closes its side (FIN)
+func (c *c08bconn) peerClose() {
+	c.w.mu.Lock()
+	if c.inErr == nil {
+		c.inErr = io.EOF
+	}
+	if c.mode == "" {
+		c.mode = "dead"
+	}
+	c.cond.Broadcast()
+	c.w.mu.Unlock()
+}
+
+func (c *c08bconn) LocalAddr() net.Addr { return &net.TCPAddr{IP: net.IPv4(10, 9, 0, 1), Port: 50000} }
+func (c *c08bconn) RemoteAddr() net.Addr {
+	return &net.TCPAddr{IP: net.IPv4(10, 0, 0, 1), Port: 80}
+}
+func (c *c08bconn) SetDeadline(t time.Time) error      { return nil }
+func (c *c08bconn) SetReadDeadline(t time.Time) error  { return nil }
+func (c *c08bconn) SetWriteDeadline(t time.Time) error { return nil }
+
+func (w *c08tworld) dial(network, addr string) (net.Conn, error) {
+	w.mu.Lock()
+	defer w.mu.Unlock()
+	if _, ok := w.fam.lay.byAddr[addr]; !ok {
+		w.err = "dial to unknown backend address " + addr
+	}
+	c := &c08bconn{w: w, addr: addr, att: -1}
+	c.cond = sync.NewCond(&w.mu)
+	if w.phase == "warm" {
+		c.mode = "answer"
+	} else {
+		kind := w.choose(false)
+		w.atts = append(w.atts, c08att{kind: kind, backend: addr, sub: w.fam.lay.byAddr[addr].sub})
+		if kind == "dial-refused" {
+			return nil, &net.OpError{Op: "dial", Net: network, Err: syscall.ECONNREFUSED}
+		}
+		c.mode, c.att = kind, len(w.atts)-1
+	}
+	c.reqs = 1
+	w.conns = append(w.conns, c)
+	return c, nil
+}
+
+func c08status(out []byte) string {
+	for bytes.HasPrefix(out, []byte("HTTP/1.1 100")) {
+		i := bytes.Index(out, []byte("\r\n\r\n"))
+		if i < 0 {
+			break
+		}
+		out = out[i+4:]
+	}
+	if len(out) >= 12 && bytes.HasPrefix(out, []byte("HTTP/1.")) {
+		return string(out[9:12])
+	}
+	return ""
+}
+
+func c08execReal(t *testing.T, srv *BfeServer, f *c08family, backs map[string]*backend.BfeBackend, ch *vk.Chooser) c08result {
+	c08reset(srv, f, backs)
+	w := &c08tworld{fam: f, ch: ch, backs: backs, phase: "judged"}
+	var res c08result
+	cluster, err := srv.ServerConf.ClusterTable.Lookup(f.cluster())
+	if err != nil {
+		t.Fatalf("c08: %v", err)
+	}
+	h1run(t, srv, nil, func(e *h1env) {
+		tr, ok := createTransport(cluster).(*bfe_http.Transport) // the real transport of an http cluster
+		if !ok {
+			t.Fatalf("c08: createTransport did not return *bfe_http.Transport")
+		}
+		tr.Dial = w.dial
+		if f.real.keepalive { // what BackendConf.MaxIdleConnsPerHost = 2 gives
+			tr.DisableKeepAlives, tr.MaxIdleConnsPerHost = false, 2
+		}
+		srv.ReverseProxy.tsMu.Lock()
+		srv.ReverseProxy.transports[f.cluster()] = tr
+		srv.ReverseProxy.tsMu.Unlock()
+		// wait for the answer to the request whose response starts at out[skip:], letting
+		// response-header timeouts (fake clock) expire
+		wait := func(skip int) string {
+			for i := 0; i < f.cap()+4; i++ {
+				if st := c08status(e.out()[skip:]); st != "" {
+					return st
+				}
+				if e.closed() || e.serveDone() {
+					return "closed"
+				}
+				if i == 0 {
+					e.sleep(300 * time.Millisecond)
+				} else {
+					e.sleep(51 * time.Second)
+				}
+			}
+			return "none"
+		}
+		skip := 0
+		if f.real.history != "fresh" {
+			w.phase = "warm"
+			e.send("GET /" + f.cluster() + "/warm HTTP/1.1\r\nHost: example.org\r\nCookie: UID=" + f.cookie + "\r\n\r\n")
+			if st := wait(0); st != "200" || w.warmReq != 1 {
+				w.err = fmt.Sprintf("warm-up request not answered 200 by one backend request (status %q, backend requests %d)", st, w.warmReq)
+			}
+			skip = len(e.out())
+			if f.real.history == "warm-idleclosed" {
+				for _, c := range w.conns {
+					c.peerClose()
+				}
+				e.sleep(time.Millisecond)
+			}
+			w.mu.Lock()
+			w.phase = "judged"
+			w.mu.Unlock()
+		}
+		e.send(f.request())
+		res.status = wait(skip)
+		// teardown of the backend side
+		tr.CloseIdleConnections()
+		for _, c := range w.conns {
+			c.peerClose()
+		}
+		e.sleep(time.Second)
+	})
+	res.atts = w.atts
+	res.err = w.err
+	res.forced = w.forced
+	if res.status == "none" && res.err == "" {
+		res.err = "request neither answered nor connection closed at quiescence"
+	}
+	return res
+}
+
+var c08realConfsQ = [][2]int{{0, 0}, {1, 0}, {1, 1}}
+var c08realConfsT = [][2]int{{0, 0}, {1, 0}, {2, 0}, {0, 1}, {1, 1}}
+var c08realShapesQ = [][2]string{{"GET", "none"}, {"POST", "cl"}, {"POST", "cl0"}}
+var c08realShapesT = [][2]string{{"GET", "none"}, {"POST", "cl"}, {"POST", "cl0"}, {"GET", "chunked"}, {"HEAD", "none"}, {"POST", "chunked"}}
+
+func c08realFamilies(lays []*c08layout, thorough bool) []*c08family {
+	var lay *c08layout
+	for _, l := range lays {
+		if l.name == "L3" { // one backend in the primary sub-cluster: the next request meets the pooled connection
+			lay = l
+		}
+	}
+	rcs, shapes := c08realConfsQ, c08realShapesQ
+	if thorough {
+		rcs, shapes = c08realConfsT, c08realShapesT
+	}
+	variants := []c08real{{false, "fresh"}, {true, "fresh"}, {true, "warm"}, {true, "warm-idleclosed"}}
+	if thorough {
+		variants = append(variants, c08real{false, "warm"})
+	}
+	var fs []*c08family
+	for i := range variants {
+		for _, mc := range rcs {
+			for rl := 0; rl <= 1; rl++ {
+				for _, sh := range shapes {
+					f := &c08family{lay: lay, m: mc[0], c: mc[1], rl: rl, method: sh[0], body: sh[1], cookie: "u0", primary: lay.primary, real: &variants[i]}
+					for _, k := range c08realKinds {
+						if k == "write-fails-in-body" && c08bodyClass(sh[1]) != "body" {
+							continue
+						}
+						f.alphabet = append(f.alphabet, k)
+					}
+					f.est = 3 * f.estimate()
+					fs = append(fs, f)
+				}
+			}
+		}
+	}
+	return fs
+}
+
 // ---- entry point ----------------------------------------------------------------------------
 
 func c08topos(t *testing.T, srv *BfeServer, lays []*c08layout, thorough bool) []c08topo {
@@ -880,13 +1267,20 @@ func TestVerifC08(t *testing.T) {
 	}
 	var units []*c08unit
 	seen := map[string]bool{}
-	nBase, nHist, nHistFam := 0, 0, 0
+	nBase, nHist, nHistFam, nReal := 0, 0, 0, 0
 	for _, th := range tiers {
 		for _, f := range c08families(th, c08topos(t, srv, lays, th)) {
 			if !seen[f.name()] {
 				seen[f.name()] = true
 				units = append(units, &c08unit{key: f.name(), est: f.est, fams: []*c08family{f}})
 				nBase++
+			}
+		}
+		for _, f := range c08realFamilies(lays, th) {
+			if !seen[f.name()] {
+				seen[f.name()] = true
+				units = append(units, &c08unit{key: f.name(), est: f.est, fams: []*c08family{f}})
+				nReal++
 			}
 		}
 		depth := 2
@@ -933,9 +1327,10 @@ func TestVerifC08(t *testing.T) {
 	if r.Thorough() {
 		rcs = c08retryConfsT
 	}
-	r.Set("bounds", fmt.Sprintf("start-up clusters: families=%d = 4 gslb layouts x initial availability x hash key (x clock offsets %v when CrossRetry>0) x (RetryMax,CrossRetry) in %v x RetryLevel 0..1 x %d methods x %d body shapes, answer alphabet %d kinds; configuration histories: %d histories (start-up with 3x3 versions + every sequence of <=%d reloads over {server data conf S0..S2, gslb data conf G0..G2} that leaves the cluster balanced) x %d request shapes = %d families, answer alphabet %d kinds; every reachable answer sequence up to 1+RetryMax+CrossRetry attempts (max 4)",
+	r.Set("bounds", fmt.Sprintf("start-up clusters: families=%d = 4 gslb layouts x initial availability x hash key (x clock offsets %v when CrossRetry>0) x (RetryMax,CrossRetry) in %v x RetryLevel 0..1 x %d methods x %d body shapes, answer alphabet %d kinds; configuration histories: %d histories (start-up with 3x3 versions + every sequence of <=%d reloads over {server data conf S0..S2, gslb data conf G0..G2} that leaves the cluster balanced) x %d request shapes = %d families, answer alphabet %d kinds; real transport: %d families (layout L3 x keep-alive off/on x connection history x (RetryMax,CrossRetry) in %v x RetryLevel 0..1 x %d request shapes), %d backend fates per attempt; every reachable answer sequence up to 1+RetryMax+CrossRetry attempts (max 4)",
 		nBase, map[bool][]int{false: c08presleepsQ, true: c08presleepsT}[r.Thorough()], rcs, len(c08methods), r.Pick(len(c08bodiesQ), len(c08bodiesT)), r.Pick(len(c08kindsQ), len(c08kindsT)),
-		nHist, r.Pick(2, 3), r.Pick(len(c08histShapesQ), len(c08histShapesT)), nHistFam, len(c08histKinds)))
+		nHist, r.Pick(2, 3), r.Pick(len(c08histShapesQ), len(c08histShapesT)), nHistFam, len(c08histKinds),
+		nReal, map[bool][][2]int{false: c08realConfsQ, true: c08realConfsT}[r.Thorough()], r.Pick(len(c08realShapesQ), len(c08realShapesT)), len(c08realKinds)))
 
 	backsOf := map[string]map[string]*backend.BfeBackend{}
 	complete := true
@@ -983,7 +1378,12 @@ func TestVerifC08(t *testing.T) {
 			}
 			var famExecs int64
 			n := vk.ExploreSharded(r, name, 0, -1, func(ch *vk.Chooser) {
-				res := c08exec(t, usrv, f, backs, ch)
+				var res c08result
+				if f.real != nil {
+					res = c08execReal(t, usrv, f, backs, ch)
+				} else {
+					res = c08exec(t, usrv, f, backs, ch)
+				}
 				if ch.Skipped {
 					return
 				}
@@ -1040,6 +1440,9 @@ func TestVerifC08(t *testing.T) {
 						if f.hist != nil && len(f.hist.ops) > 0 {
 							sig += ":after-reloads"
 						}
+						if f.real != nil {
+							sig += ":real-transport"
+						}
 						r.Violation(sig, id, name+": "+v.detail)
 					}
 				} else if samples < 6 && na >= 2 && famExecs%53 == 7 {
@@ -1056,7 +1459,9 @@ func TestVerifC08(t *testing.T) {
 			r.Traces(n)
 			r.States(n)
 			r.Add("sum_families_run", 1)
-			if u.hist != nil {
+			if f.real != nil {
+				r.Add("sum_executions_real_transport", n)
+			} else if u.hist != nil {
 				r.Add("sum_executions_after_history", n)
 			} else {
 				r.Add("sum_executions_"+f.lay.name, n)
